@@ -28,8 +28,8 @@ TOLERANCES = {
 }
 ASSUMPTIONS = ["loop model of vf.oracles.gridmodel (numbering convention of C07)"]
 FLOORS = {
-    "quick": {"cell_to_face_buffer_refilled": 500, "tangential_default_form_is_blockwise": 300, "cell_to_face_integer_fields": 500, "reconstruction_object_reused": 500, "scalar_voxel_size": 100, "grid_rejudged_after_operators": 300, "divergence_matrix": 500, "face_to_cell_model": 1500, "cell_to_face_model": 3000, "tangential_constant": 300},
-    "thorough": {"cell_to_face_buffer_refilled": 5000, "tangential_default_form_is_blockwise": 3000, "cell_to_face_integer_fields": 5000, "reconstruction_object_reused": 5000, "scalar_voxel_size": 1000, "grid_rejudged_after_operators": 3000, "divergence_matrix": 5000, "face_to_cell_model": 15000, "cell_to_face_model": 30000, "tangential_constant": 3000},
+    "quick": {"small_physical_units": 100, "cell_to_face_buffer_refilled": 500, "tangential_default_form_is_blockwise": 300, "cell_to_face_integer_fields": 500, "reconstruction_object_reused": 500, "scalar_voxel_size": 100, "grid_rejudged_after_operators": 300, "divergence_matrix": 500, "face_to_cell_model": 1500, "cell_to_face_model": 3000, "tangential_constant": 300},
+    "thorough": {"small_physical_units": 1000, "cell_to_face_buffer_refilled": 5000, "tangential_default_form_is_blockwise": 3000, "cell_to_face_integer_fields": 5000, "reconstruction_object_reused": 5000, "scalar_voxel_size": 1000, "grid_rejudged_after_operators": 3000, "divergence_matrix": 5000, "face_to_cell_model": 15000, "cell_to_face_model": 30000, "tangential_constant": 3000},
 }
 
 
@@ -67,6 +67,11 @@ def run_shard(spec, R):
             if not R.want([list(shape), draw]):
                 continue
             h = [float(10 ** rng.uniform(-2, 2)) for _ in shape]
+            if (si + draw) % 4 == 1:
+                # lengths in small units (nanometres ... micrometres), with a mild or a strong anisotropy
+                unit = float(10 ** rng.uniform(-9, -6))
+                h = [unit * float(rng.uniform(1.0, 1.01) if (si % 2) else rng.uniform(1.0, 3.0)) for _ in shape]
+                R.count("small_physical_units")
             scalar_h = (si + draw) % 3 == 2
             if scalar_h:
                 h = [h[0]] * dim  # one number for all axes, given as a plain float
